@@ -4,8 +4,42 @@ import DFV.Model.C14
 namespace DFV.Drv
 open Lean DFV DFV.T DFV.C14
 
+/-- tagged JSON tree `{"n": "p/q"} | {"s": ".."} | {"a": [..]} | {"o": [[key, value], ..]}` ↔ `JV`
+(keeps key order and the number/string distinction) -/
+partial def jvOfJson (j : Json) : R JV := do
+  match fldOpt j "n" with
+  | some v => return .num (← ratOfJson v)
+  | none =>
+  match fldOpt j "s" with
+  | some v => return .str (← strOfJson v)
+  | none =>
+  match fldOpt j "a" with
+  | some v => return .arr (← (← arr v).toList.mapM jvOfJson)
+  | none =>
+  match fldOpt j "o" with
+  | some v =>
+    let kvs ← (← arr v).toList.mapM fun e => do
+      let pr ← arr e
+      if pr.size ≠ 2 then throw "object entry must be [key, value]"
+      pure ((← strOfJson pr[0]!), (← jvOfJson pr[1]!))
+    return .obj kvs
+  | none => throw "bad tagged JSON value"
+
+partial def jvToJson : JV → Json
+  | .num q => Json.mkObj [("n", ratToJson q)]
+  | .str s => Json.mkObj [("s", .str s)]
+  | .arr xs => Json.mkObj [("a", .arr (xs.map jvToJson).toArray)]
+  | .obj kvs => Json.mkObj [("o", .arr (kvs.map fun kv => Json.arr #[.str kv.1, jvToJson kv.2]).toArray)]
+
 def c14own (op : String) (j : Json) : Option (R Json) :=
   match op with
+  | "save_subs" => some do
+      let m ← meshOfJson (← fld j "mesh")
+      pure (Json.mkObj [("ok", jvToJson (saveSubs m))])
+  | "load_subs" => some do
+      let m ← meshOfJson (← fld j "mesh")
+      let jv ← jvOfJson (← fld j "sidecar")
+      pure (resJ meshToJson (loadSubs m jv))
   | "sel_plane" => some do
       let m ← meshOfJson (← fld j "mesh")
       let ax ← natOfJson (← fld j "ax")
